@@ -230,6 +230,62 @@ def run_faces(rec, seed):
                             break
 
 
+def run_extra(rec, seed):
+    """(a) a Grid parsed from COMODO metadata whose shift attribute is stored as text: results are labelled with the
+    dataset's own coordinates (values and attributes);  (b) a grid ufunc with two outputs on different positions and
+    keep_coords=False: every output carries its own dimension coordinates and nothing else"""
+    from xgcm import Grid
+    from xgcm.grid_ufunc import apply_as_grid_ufunc
+
+    m = 3
+    ds = xr.Dataset(coords={
+        "xc": ("xc", np.arange(m) + 0.5, {"axis": "X", "units": "m"}), "xg": ("xg", np.arange(m) * 1.0, {"axis": "X", "c_grid_axis_shift": "-0.5", "note": "text"}),
+        "xo": ("xo", np.arange(m + 1) * 1.0, {"axis": "X", "c_grid_axis_shift": -0.5}), "t": ("t", [10.0, 20.0], {"axis": "T"}),
+        "aux_g": (("t", "xg"), np.arange(2 * m).reshape(2, m) * 1.0, {"nm": "aux_g"}), "aux_c": (("t", "xc"), np.arange(2 * m).reshape(2, m) * 2.0, {"nm": "aux_c"}),
+        "lab_t": ("t", [1.0, 2.0]),
+    })
+    vals = ((np.arange(2 * m) * 5 + seed) % 11).astype(float).reshape(2, m)
+    da = xr.DataArray(vals, dims=["t", "xc"], name="foo")
+
+    def judge(sub, case, r, kc):
+        exp = {c: v for c, v in ds.coords.items() if set(v.dims) <= set(r.dims) and (c in r.dims or kc)}
+        if set(r.coords) != set(exp):
+            rec.violation(sub, "coordinate-set", case, sorted(map(str, exp)), sorted(map(str, r.coords)))
+            return
+        for c in exp:
+            if not np.array_equal(r.coords[c].values, exp[c].values) or dict(r.coords[c].attrs) != dict(exp[c].attrs):
+                rec.violation(sub, "coordinate-values-or-attrs", dict(case, coord=str(c)), [exp[c].values.tolist(), dict(exp[c].attrs)], [r.coords[c].values.tolist(), dict(r.coords[c].attrs)])
+                return
+
+    with warnings.catch_warnings():
+        warnings.simplefilter("ignore")
+        g = Grid(ds, periodic=False, boundary="extend")
+        for op in ("diff", "interp", "min", "max", "cumsum"):
+            for to in ("left", "outer"):
+                for kc in (True, False):
+                    case = dict(extra="comodo-text-attrs", op=op, to=to, kc=kc)
+                    rec.case(("extra-comodo", op, to, kc), True, sample=case)
+                    try:
+                        r = getattr(g, op)(da, "X", to=to, keep_coords=kc)
+                    except Exception as e:
+                        rec.violation("labels-parsed-grid", "raise:" + exc_sig(e), case, "array", f"{type(e).__name__}: {e}"[:200])
+                        continue
+                    judge("labels-parsed-grid", case, r, kc)
+        for kc in (False, True):
+            for route in ("function", "method"):
+                case = dict(extra="two-outputs", kc=kc, route=route)
+                rec.case(("extra-two-outputs", kc, route), True, sample=case)
+                f = lambda a: (a[..., 1:] - a[..., :-1], a[..., 1:] * 2.0)
+                kw = dict(axis=[("X",)], signature="(X:center)->(X:left),(X:center)", boundary_width={"X": (1, 0)}, keep_coords=kc)
+                try:
+                    rs = apply_as_grid_ufunc(f, da, grid=g, **kw) if route == "function" else g.apply_as_grid_ufunc(f, da, **kw)
+                except Exception as e:
+                    rec.violation("labels-two-outputs", "raise:" + exc_sig(e), case, "two arrays", f"{type(e).__name__}: {e}"[:200])
+                    continue
+                for oi, r in enumerate(rs):
+                    judge("labels-two-outputs", dict(case, output=oi), r, kc)
+
+
 def pools(tier):
     out = []
     for k in range(0, BOUNDS[tier]["k"] + 1):
@@ -239,7 +295,7 @@ def pools(tier):
 
 def shards(tier, seed):
     ps = pools(tier)
-    return [(lo, min(lo + 6, len(ps))) for lo in range(0, len(ps), 6)] + [("faces",)]
+    return [(lo, min(lo + 6, len(ps))) for lo in range(0, len(ps), 6)] + [("faces",), ("extra",)]
 
 
 def run_shard(shard, tier, seed, rec):
@@ -247,6 +303,9 @@ def run_shard(shard, tier, seed, rec):
 
     if shard[0] == "faces":
         run_faces(rec, seed)
+        return
+    if shard[0] == "extra":
+        run_extra(rec, seed)
         return
     ps = pools(tier)
     for pool in ps[shard[0]: shard[1]]:
@@ -277,6 +336,11 @@ def run_shard(shard, tier, seed, rec):
 
 
 def replay_case(case, seed, rec):
+    if case.get("extra"):
+        rec.MAXVIOL = 10 ** 6
+        run_extra(rec, seed)
+        rec.viol = [v for v in rec.viol if v["case"] == case]
+        return
     if case.get("faces"):
         rec.MAXVIOL = 10 ** 6
         run_faces(rec, seed)
